@@ -76,6 +76,15 @@ GLM_FUNC_QUALIFIER glm_vec4 glm_vec4_cross(glm_vec4 v1, glm_vec4 v2)
 
 GLM_FUNC_QUALIFIER glm_vec4 glm_vec4_normalize(glm_vec4 v)
 {
+	// v * (1 / sqrt(dot(v, v))) as the scalar path; _mm_rsqrt_ps is a 12-bit approximation, kept for lowp only (glm_vec4_normalize_lowp)
+	glm_vec4 const dot0 = glm_vec4_dot(v, v);
+	glm_vec4 const isr0 = _mm_div_ps(_mm_set1_ps(1.0f), _mm_sqrt_ps(dot0));
+	glm_vec4 const mul0 = _mm_mul_ps(v, isr0);
+	return mul0;
+}
+
+GLM_FUNC_QUALIFIER glm_vec4 glm_vec4_normalize_lowp(glm_vec4 v)
+{
 	glm_vec4 const dot0 = glm_vec4_dot(v, v);
 	glm_vec4 const isr0 = _mm_rsqrt_ps(dot0);
 	glm_vec4 const mul0 = _mm_mul_ps(v, isr0);
